@@ -261,6 +261,80 @@ def rule_r6(facts, col):
             col.ok("C18.R6", key, body.where(bb), "flags in %s, offset 0" % sorted(hex(v) for v in vals))
 
 
+def _strip_casts(e):
+    p = peel(e, through_try=False)
+    while p is not None and p.k == "cast" and p.a is not None:
+        p = peel(p.a, through_try=False)
+    return p
+
+
+def rule_r8(facts, col):
+    """the aliasing period equals the ring size the position arithmetic uses: in Circ::new the second mapping sits at
+    base + size with length size, for the size the CALLER passed (not a rounded or otherwise adjusted value), and the Buffer
+    constructor hands the same size to the ring state and to Circ::new"""
+    for body in facts.bodies:
+        if body.self_adt != CIRC_ADT or body.name != "new" or body.kind == "closure":
+            continue
+        key = body.q + ":period"
+        probs = []
+        n = 0
+        for bb, t in body.calls():
+            q = t["f"].get("q") or ""
+            if q.endswith("Map::with_addr") and len(t["args"]) >= 3:
+                n += 1
+                ln = _strip_casts(body.operand_expr(t["args"][1]))
+                if not (ln.k == "param" and ln.idx == 1):
+                    probs.append("the second mapping's length is %s, not the size parameter" % show(ln)[:50])
+                ptr = body.operand_expr(t["args"][2])
+                okp = False
+                for x in walk(ptr):
+                    if x.k == "bin" and x.op in ("Add", "AddUnchecked", "Offset"):
+                        for side in (x.a, x.b):
+                            sp = _strip_casts(side)
+                            if sp is not None and sp.k == "param" and sp.idx == 1:
+                                okp = True
+                    if x.k == "call" and (x.q or "").split("::")[-1] in ("add", "byte_add", "wrapping_add", "offset") and len(x.args or []) >= 2:
+                        sp = _strip_casts(x.args[1])
+                        if sp is not None and sp.k == "param" and sp.idx == 1:
+                            okp = True
+                if not okp:
+                    probs.append("the second mapping is not placed at base + <size parameter> (%s)" % show(peel(ptr, through_try=False))[:60])
+        if not n:
+            col.silent("C18.R8", key, body.where(), "no Map::with_addr call")
+            continue
+        if probs:
+            col.bad("C18.R8", key, body.where(), "; ".join(probs) + ": positions wrap at the size the caller asked for, so byte i and "
+                    "byte i + size must be the same memory; with a different period the two halves do not alias and a window "
+                    "crossing the wrap point shows stale data", {})
+        else:
+            col.ok("C18.R8", key, body.where(), "second half mapped at base + size, length size, for the caller's size")
+    # the Buffer constructor: same size to the ring state and to Circ::new
+    for body in facts.bodies:
+        if body.kind == "closure":
+            continue
+        agg = None
+        for b2 in sorted(body.reachable(0)):
+            for st in body.blocks[b2]["stmts"]:
+                if st["k"] == "assign" and st["rv"]["k"] == "agg" and st["rv"].get("adt") == c01.STATE_ADT:
+                    agg = (b2, st)
+        calls = [(bb, t) for bb, t in body.calls() if (t["f"].get("q") or "").endswith("Circ::new")]
+        if not agg or not calls:
+            continue
+        flds = agg[1]["rv"].get("fields") or []
+        key = body.q + ":same-size"
+        if "circ_len" not in flds:
+            col.silent("C18.R8", key, body.where(agg[0]), "no circ_len field")
+            continue
+        cl = _strip_casts(body.operand_expr(agg[1]["rv"]["ops"][flds.index("circ_len")]))
+        ca = _strip_casts(body.operand_expr(calls[0][1]["args"][0]))
+        if cl.k == "call" or ca.k == "call":
+            col.silent("C18.R8", key, body.where(agg[0]), "size obtained through a call: not compared")
+        elif same_expr(cl, ca):
+            col.ok("C18.R8", key, body.where(agg[0]), "ring state and mapping get the same size")
+        else:
+            col.bad("C18.R8", key, body.where(agg[0]), "the ring state wraps at %s but the mapping is created for %s" % (show(cl)[:40], show(ca)[:40]), {})
+
+
 def run(ctx):
     facts = ctx.facts("default")
     ctx.anchor("C18", MAP_ADT in facts.adts and CIRC_ADT in facts.adts, "circular_buffer::{Map,Circ}")
@@ -271,6 +345,8 @@ def run(ctx):
     rule_r5(facts, ctx)
     rule_r6(facts, ctx)
     c01.rule_r2(facts, ctx, rule_id="C18.R7")
+    rule_r8(facts, ctx)
+    ctx.floor("C18.R8", 2, "Circ::new period + Buffer::new same size")
     from .. import controls
     controls.expect(ctx, "C18.R1", rule_r1, "rogue_mapping", "mmap outside Map")
     controls.expect(ctx, "C18.R6", rule_r6, "rogue_mapping", "MAP_PRIVATE mapping")
